@@ -130,6 +130,87 @@ func runC08(p *Prog, r *Report) {
 	if want("C08.8") {
 		ruleReadErrorsSurface(p, r, "C08.8")
 	}
+	if want("C08.9") {
+		ruleIOErrorNotCorruption(p, r, "C08.9")
+	}
+}
+
+// ruleIOErrorNotCorruption: in the journal reader a failed read of the underlying file (anything
+// but EOF / unexpected EOF, which mean "the file ends here") is returned as it is. It is never
+// turned into a corruption report (which non-strict recovery SKIPS, silently losing acknowledged
+// records and then deleting the journal), never followed by parsing the buffer, and never turned
+// into a clean end-of-journal.
+func ruleIOErrorNotCorruption(p *Prog, r *Report, rule string) {
+	r.Begin(rule, "E-GUARD", "journal.Reader.nextChunk: after io.ReadFull fails with an error other than io.EOF / io.ErrUnexpectedEOF the function does nothing but return that error: it does not call corrupt() (skippable damage), does not accept the block (store to r.n) and does not latch a clean io.EOF", 3)
+	defer r.End()
+	fn := resolveFn(p, r, "leveldb/journal", "(*Reader).nextChunk")
+	if fn == nil {
+		return
+	}
+	read := evCall("io.ReadFull")
+	errV := mExtract(1, "io.ReadFull")
+	global := func(name string) VMatch {
+		return func(v ssa.Value) bool {
+			u, ok := stripConv(v).(*ssa.UnOp)
+			if !ok || u.Op != token.MUL {
+				return false
+			}
+			g, ok := u.X.(*ssa.Global)
+			return ok && g.Pkg != nil && g.Pkg.Pkg.Path() == "io" && g.Name() == name
+		}
+	}
+	atoms := []Atom{
+		nilAtom("err==nil", errV),
+		cmpAtom("err==io.EOF", token.EQL, errV, global("EOF")),
+		cmpAtom("err==io.ErrUnexpectedEOF", token.EQL, errV, global("ErrUnexpectedEOF")),
+	}
+	benign := func(a []bool) bool { return a[0] || a[1] || a[2] }
+	// nil excludes the two sentinels
+	consistent := func(a []bool) bool { return !(a[0] && (a[1] || a[2])) && !(a[1] && a[2]) }
+	tRN := "leveldb/journal.Reader"
+	targets := []struct {
+		kind string
+		pred InstrPred
+		desc string
+	}{
+		{"io-error-not-corruption", evCall("(*leveldb/journal.Reader).corrupt"), "reporting corruption (which non-strict replay skips)"},
+		{"io-error-block-not-accepted", evStoreField(tRN, "n"), "accepting the block that was read"},
+		{"io-error-not-clean-eof", func(in ssa.Instruction) bool {
+			st, ok := in.(*ssa.Store)
+			return ok && isFieldAddr(st.Addr, tRN, "err") && global("EOF")(st.Val)
+		}, "latching a clean end of journal"},
+	}
+	for _, t := range targets {
+		checkGuard(p, r, GuardSpec{Rule: t.kind, Fn: fn, Starts: after(fn, read), Avoid: read, Target: t.pred, TargetDesc: t.desc + " after a read", Atoms: atoms, G: benign, Consistent: consistent, GDesc: "the read succeeded or hit (unexpected) EOF", MinTargets: 1})
+	}
+	// and the error returned in that case is the read's own error
+	r.Site(1)
+	asg := []bool{false, false, false}
+	wrongRet := func(in ssa.Instruction) bool {
+		ret, ok := in.(*ssa.Return)
+		if !ok || len(ret.Results) != 1 {
+			return false
+		}
+		v := retValue(ret, ret.Results[0])
+		if errV(stripConv(v)) {
+			return false
+		}
+		// r.err just stored from the read error is fine too
+		if u, ok := v.(*ssa.UnOp); ok && u.Op == token.MUL && isFieldAddr(u.X, tRN, "err") {
+			b := ret.Block()
+			for i := len(b.Instrs) - 1; i >= 0; i-- {
+				if st, ok := b.Instrs[i].(*ssa.Store); ok && isFieldAddr(st.Addr, tRN, "err") {
+					return !errV(stripConv(st.Val))
+				}
+			}
+		}
+		return true
+	}
+	if w := findPathV(after(fn, read), atomEdges(atoms, asg), read, wrongRet, atomVals(atoms, asg)); w != nil {
+		r.Fail(fnName(fn), "io-error-returned-as-is", "a failed read returns the read's own error", "with a non-EOF read error a path returns something else", p.posOfLast(w, wrongRet), p.renderPath(w))
+	} else {
+		r.OK(fnName(fn), "io-error-returned-as-is", "a failed read returns the read's own error")
+	}
 }
 
 func ruleErrorDiscipline(p *Prog, r *Report, rule string) {
